@@ -1,0 +1,103 @@
+//! Verification hooks. Only compiled with `--cfg futures_buffered_verif`.
+//!
+//! A single event callback (a no-op unless a harness installs one) reports
+//! linearization points of the waker protocol and a few probes of the shared
+//! waker allocation. Nothing in here changes the behaviour of the crate,
+//! except [`inject_inconsistent`], which makes the next `n` dequeues report
+//! the (always legal) `Inconsistent` answer of the MPSC queue.
+
+use core::sync::atomic::{AtomicUsize, Ordering};
+
+/// `(kind, a, b, c)`; the meaning of the arguments depends on `kind`.
+pub type Hook = fn(kind: u32, a: usize, b: usize, c: usize);
+
+static HOOK: AtomicUsize = AtomicUsize::new(0);
+static INJECT: AtomicUsize = AtomicUsize::new(0);
+
+/// Install the event hook.
+pub fn set_hook(h: Hook) {
+    HOOK.store(h as usize, Ordering::SeqCst);
+}
+
+/// Remove the event hook.
+pub fn clear_hook() {
+    HOOK.store(0, Ordering::SeqCst);
+}
+
+/// Make the next `n` calls of `WakerList::pop` answer `Inconsistent`.
+pub fn inject_inconsistent(n: usize) {
+    INJECT.store(n, Ordering::SeqCst);
+}
+
+pub(crate) fn take_inject() -> bool {
+    INJECT
+        .fetch_update(Ordering::SeqCst, Ordering::SeqCst, |n| n.checked_sub(1))
+        .is_ok()
+}
+
+#[inline]
+pub(crate) fn ev(kind: u32, a: usize, b: usize, c: usize) {
+    let p = HOOK.load(Ordering::SeqCst);
+    if p != 0 {
+        // SAFETY: only `set_hook` stores a non-zero value, and it stores a `Hook`.
+        let f: Hook = unsafe { core::mem::transmute::<usize, Hook>(p) };
+        f(kind, a, b, c)
+    }
+}
+
+/// Event kinds.
+pub mod kind {
+    /// block allocated: (base, cap, size_of::<WakerItem>())
+    pub const BLOCK_ALLOC: u32 = 1;
+    /// block layout: (base, offset of slot 0, allocation size)
+    pub const BLOCK_LAYOUT: u32 = 2;
+    /// block about to be released: (base, cap, allocation size)
+    pub const BLOCK_FREE: u32 = 3;
+    /// waker vtable entries: (slot pointer, resolved header, index stored in the slot)
+    pub const VT_CLONE: u32 = 10;
+    pub const VT_WAKE: u32 = 11;
+    pub const VT_WAKE_BY_REF: u32 = 12;
+    pub const VT_DROP: u32 = 13;
+    /// `wake_by_ref`: before the slot lock (slot), after the flag swap (slot, prev),
+    /// after the enqueue (slot), after the notify (slot)
+    pub const WAKE_LOCK: u32 = 20;
+    pub const WAKE_SWAPPED: u32 = 21;
+    pub const WAKE_ENQUEUED: u32 = 22;
+    pub const WAKE_NOTIFIED: u32 = 23;
+    /// `wake_by_ref` returns (slot), the slot lock has been released
+    pub const WAKE_DONE: u32 = 24;
+    /// `WakerList::push`: before the slot lock (header, index), after the swap (header, index, prev),
+    /// after the enqueue (header, index)
+    pub const PUSH_LOCK: u32 = 25;
+    pub const PUSH_SWAPPED: u32 = 26;
+    pub const PUSH_ENQUEUED: u32 = 27;
+    /// `WakerList::register`: before / after (header)
+    pub const REG_BEFORE: u32 = 30;
+    pub const REG_AFTER: u32 = 31;
+    /// `WakerList::pop`: dequeued (header, index), flag cleared (header, index),
+    /// inconsistent (header, injected), empty (header)
+    pub const POP_SLOT: u32 = 40;
+    pub const POP_CLEARED: u32 = 41;
+    pub const POP_INCONSISTENT: u32 = 42;
+    pub const POP_EMPTY: u32 = 43;
+    /// reference count: (header, old value)
+    pub const INC_STRONG: u32 = 50;
+    pub const DEC_STRONG: u32 = 51;
+    /// the acquire fence after the last decrement has been executed (header)
+    pub const DEC_FENCE: u32 = 52;
+    /// `Drop for WakerList` entered (header)
+    pub const LIST_DROP: u32 = 55;
+    /// per-poll budget exhausted, task self-woken: (header, MAX)
+    pub const BUDGET: u32 = 60;
+    /// queue observed inconsistent, task self-woken: (header)
+    pub const INCONSISTENT_WAKE: u32 = 61;
+    /// slot filled by a push (header, index) / vacated (header, index)
+    pub const SLOT_INSERT: u32 = 62;
+    pub const SLOT_VACATE: u32 = 63;
+    /// unbounded variants: group created (header, cap), removed (header), re-inserted as last (header),
+    /// group visited by the poll loop (header, cursor, number of groups)
+    pub const GROUP_NEW: u32 = 70;
+    pub const GROUP_REMOVE: u32 = 71;
+    pub const GROUP_REINSERT: u32 = 72;
+    pub const GROUP_VISIT: u32 = 73;
+}
